@@ -838,3 +838,107 @@ def vf6(ctx, c):
 
 
 RULES = {"VF-6": vf6, "DSK-1": dsk1, "DSK-2": dsk2, "DSK-3": dsk3, "DSK-4": dsk4, "DSK-6": dsk6, "DSK-7": dsk7, "DSK-12": dsk12}
+
+
+def dsk5(ctx, c):
+    """DSK-5 granule-bounded placement of data and trailer; DSK-11 chunk continuity writer/reader; DSK-8 empty files."""
+    repo = ctx.repo
+    fn = repo.method(CLS, "write_to_granules")
+    where = repo.loc(fn, fn.node)
+    params = [p for p in fn.params if p != "self"]
+    p_data, p_gran, p_pre, p_post = params[:4]
+    fit = None
+    for n in body_without_doc(fn.node):
+        if isinstance(n, ast.If) and isinstance(n.test, ast.Compare) and U(n.test.left) == "len(%s)" % p_data:
+            fit = n
+    if fit is None:
+        c.undecided("write_to_granules", "fit-test-not-found", "", where)
+        return
+    op = type(fit.test.ops[0]).__name__
+    cap = U(fit.test.comparators[0]).strip("()")
+    want_cap = "DiskConstants.HALF_TRACK_LEN - skip_bytes"
+    c.check(cap == want_cap, "write_to_granules:capacity", "capacity = granule length - bytes already used by the preamble", "capacity %s" % cap,
+            "write_to_granules compares the data length with %s; the room left in the granule is HALF_TRACK_LEN - skip_bytes" % cap, repo.loc(fn, fit))
+    # skip_bytes = preamble.length on the first granule only
+    t = U(fn.node)
+    good = re.search(r"skip_bytes = 0\s+if first_granule and %s:\s+pointer = %s\.write\(self\.buffer, pointer\)\s+skip_bytes \+= %s\.length" % (p_pre, p_pre, p_pre), t) is not None
+    if good:
+        c.ok("write_to_granules:preamble", "preamble written at the start of the first granule and counted in skip_bytes", where)
+    else:
+        c.undecided("write_to_granules:preamble", "shape-unknown", "", where)
+    start = re.search(r"granule = %s\[0\]\s+%s = %s\[1:\]\s+pointer = self\.seek_granule\(granule\)" % (p_gran, p_gran, p_gran), t) is not None
+    c.check(start, "write_to_granules:granule", "writes into the head of the allocation list and passes the tail on", "shape changed",
+            "write_to_granules does not take allocated_granules[0] for this chunk and pass allocated_granules[1:] on", where)
+    # else arm: slice written == slice passed on == capacity
+    arm = fit.orelse
+    wrote = [n for n in ast.walk(ast.Module(body=arm, type_ignores=[])) if isinstance(n, ast.Call) and U(n.func) == "self.write_bytes_to_buffer"]
+    rec = [n for n in ast.walk(ast.Module(body=arm, type_ignores=[])) if isinstance(n, ast.Call) and U(n.func) == "self.write_to_granules"]
+    if len(wrote) == 1 and len(rec) == 1:
+        ws = U(wrote[0].args[1])
+        rs = U(rec[0].args[0])
+        good = ws == "%s[:%s]" % (p_data, cap) and rs == "%s[%s:]" % (p_data, cap)
+        c.check(good, "write_to_granules:continuity", "writes data[:capacity], continues with data[capacity:]", "writes %s, continues with %s" % (ws, rs),
+                "write_to_granules writes %s into this granule and continues with %s; both must split at the capacity %s" % (ws, rs, cap), repo.loc(fn, rec[0]))
+        rest = [U(a) for a in rec[0].args[1:]] + ["%s=%s" % (k.arg, U(k.value)) for k in rec[0].keywords]
+        good = rest == [p_gran, "None", p_post, "first_granule=False"]
+        c.check(good, "write_to_granules:recursion", "continues with the remaining granules, no preamble, the same postamble", "continues with %s" % rest,
+                "write_to_granules continues with (%s); the next chunk goes to the remaining granules without a preamble and carries the postamble on" % ", ".join(rest), repo.loc(fn, rec[0]))
+    else:
+        c.undecided("write_to_granules:continuity", "else-arm-shape-unknown", "", repo.loc(fn, fit))
+    # fits arm: trailer right after the data with no relation to the granule end (recorded defect), keyed by the fit operator
+    fitbody = U(ast.Module(body=fit.body, type_ignores=[]))
+    trailer_after = re.search(r"pointer = self\.write_bytes_to_buffer\(pointer, %s\)\s+if %s:\s+%s\.write\(self\.buffer, pointer\)" % (p_data, p_post, p_post), fitbody) is not None
+    guarded = any(isinstance(n, ast.If) and "length" in U(n.test) and n is not fit for n in ast.walk(fit) if isinstance(n, ast.If) and n is not fit and U(n.test) != p_post)
+    if trailer_after and not guarded:
+        maxdata = "capacity - 1" if op == "Lt" else ("capacity" if op == "LtE" else op)
+        c.finding("write_to_granules:trailer", "data of up to %s bytes fits; the 5-byte trailer is written right behind it with no check against the granule end" % maxdata,
+                  "write_to_granules puts the whole data into the granule when len(data) %s capacity and then writes the postamble at the following bytes: "
+                  "when fewer than 5 bytes are left the trailer spills past the granule into bytes that belong to no chain granule "
+                  "(a 4600-byte ML file puts its last two trailer bytes at 78336-78337; 4603 bytes do not read back)" % {"Lt": "<", "LtE": "<="}.get(op, op), repo.loc(fn, fit))
+    elif trailer_after:
+        c.ok("write_to_granules:trailer", "trailer placement is guarded", repo.loc(fn, fit))
+    else:
+        c.undecided("write_to_granules:trailer", "fits-arm-shape-unknown", "", repo.loc(fn, fit))
+    c.check(op == "Lt", "write_to_granules:fit", "a chunk that exactly fills the granule continues in the next one", "fit test uses %s" % op,
+            "write_to_granules treats data that exactly fills the granule as fitting (%s): the trailer then starts at the first byte after the granule, which is the next chain granule only by accident" % op,
+            repo.loc(fn, fit))
+    # reader capacity and link
+    rd = repo.method(CLS, "read_data")
+    wr_ = repo.loc(rd, rd.node)
+    t = U(rd.node)
+    good = re.search(r"chunk_size = DiskConstants\.HALF_TRACK_LEN", t) and re.search(r"if preamble:\s+pointer \+= preamble\.length\s+chunk_size -= preamble\.length", t)
+    c.check(bool(good), "read_data:capacity", "first-granule capacity = granule length - preamble length (as the writer)", "shape changed",
+            "read_data does not compute the first granule's capacity as HALF_TRACK_LEN - preamble.length", wr_)
+    multi = next((n for n in ast.walk(rd.node) if isinstance(n, ast.If) and isinstance(n.test, ast.Compare) and "chunk_size" in U(n.test)), None)
+    if multi is None:
+        c.undecided("read_data:split", "split-test-not-found", "", wr_)
+    else:
+        opr = type(multi.test.ops[0]).__name__
+        c.check(U(multi.test) == "data_length > chunk_size" or U(multi.test) == "data_length >= chunk_size", "read_data:split", "continues in the next granule when more than the capacity remains", "split test %s" % U(multi.test),
+                "read_data splits on `%s`" % U(multi.test), repo.loc(rd, multi))
+        loops = [n for n in multi.body if isinstance(n, ast.For)]
+        cnt = U(loops[0].iter) if loops else ""
+        c.check(cnt == "range(chunk_size)", "read_data:chunk", "reads exactly the capacity from this granule", "reads %s" % cnt, "read_data reads %s bytes from a full granule" % cnt, repo.loc(rd, multi))
+        recs = [n for n in ast.walk(multi) if isinstance(n, ast.Call) and U(n.func) == "self.read_data"]
+        if recs:
+            args = [U(a) for a in recs[0].args] + ["%s=%s" % (k.arg, U(k.value)) for k in recs[0].keywords]
+            good = len(args) >= 3 and args[2] == "None" and "data_length=data_length" in args
+            c.check(good, "read_data:recursion", "next granule, no preamble, remaining length", "continues with %s" % args, "read_data continues with (%s)" % ", ".join(args), repo.loc(rd, recs[0]))
+            dec = any(isinstance(n, ast.AugAssign) and U(n.target) == "data_length" and isinstance(n.op, ast.Sub) and U(n.value) in ("1", "chunk_size") for n in ast.walk(multi))
+            c.check(dec, "read_data:remaining", "remaining length decreases by what was read", "no decrement", "read_data does not reduce the remaining length by the bytes read", repo.loc(rd, multi))
+    # the postamble is read at the pointer returned by read_data (right after the data): same contiguity assumption as the writer
+    lf = repo.method(CLS, "list_files")
+    if re.search(r"postamble\.read\(self\.buffer, post_pointer\)", U(lf.node)) and re.search(r"return \(?file_data, pointer\)?", t):
+        c.finding("list_files:trailer", "trailer read right behind the last data byte, wherever that is",
+                  "list_files reads the postamble at the position following the last data byte; when the data ends at a granule end the trailer lives in the next chain granule, "
+                  "which is not the physically next one in general (a 4603-byte file does not read back)", repo.loc(lf, lf.node))
+    # DSK-8: stored length 0 means unknown to the reader, but the writer stores len(data)
+    if re.search(r"if data_length == 0:\s+data_length = self\.calculate_file_length", U(lf.node)):
+        af = repo.method(CLS, "add_file")
+        if re.search(r"preamble\.data_length = NumericValue\(len\(coco_file\.data\)\)", U(af.node)):
+            c.finding("list_files:length-zero", "a stored length of 0 is taken as unknown and recomputed from the FAT including header and trailer",
+                      "the writer stores len(data) in the header, the reader treats 0 as 'unknown' and derives the length from the FAT and directory, which count the header and trailer: "
+                      "an empty machine-language file cannot be read back", repo.loc(lf, lf.node))
+
+
+RULES["DSK-5"] = dsk5
